@@ -522,9 +522,154 @@ def build_matrix():
       lambda: coll(parent_or_seq_chunk_parent=chunk(0, 40)).to_dict(chromosome_relative_coordinates=False, export_parent=True))
 
     # ==========================================================================================================
-    # io.models
+    # "falsy but not None" operands: wherever a constructor validates against an optional argument, an operand that is
+    # present but falsy (empty Sequence, zero-length Location, empty string, 0, empty list) must go through the same
+    # documented check as any other present operand
     # ==========================================================================================================
     ii = "models.py ParentModel.to_parent: raise InvalidInputError"
+
+    def empty_seq(**kw):
+        return Sequence("", Alphabet.NT_STRICT, **kw)
+
+    eb = "SingleInterval.__init__ 'end > len(parent_obj.sequence): raise InvalidPositionException' / Parent.__init__ 'location.end > len(sequence): raise InvalidPositionException' (a sequence of length 0 is a sequence)"
+    empty_parents = (("parent-with-empty-sequence", lambda: Parent(sequence=empty_seq())),
+                     ("named-parent-with-empty-sequence", lambda: Parent(id="chr1", sequence_type="chromosome", sequence=empty_seq())),
+                     ("empty-chromosome", lambda: seq_to_parent("", seq_id="chr1")),
+                     ("empty-sequence-as-parent", lambda: empty_seq()))      # make_parent registers Sequence as ParentInputType
+    for lab, mkp in empty_parents:
+        E(f"SingleInterval/parent/{lab}", True, eb, lambda mkp=mkp: SingleInterval(3, 9, P, mkp()))
+        E(f"SingleInterval/parent/{lab}-zero-length-interval-beyond", True, eb, lambda mkp=mkp: SingleInterval(5, 5, M, mkp()))
+        E(f"SingleInterval/parent/{lab}-zero-length-interval-at-0", None, "0 <= 0 <= 0 <= len(sequence): fits", lambda mkp=mkp: SingleInterval(0, 0, P, mkp()))
+        E(f"CompoundInterval/parent/{lab}", True, eb, lambda mkp=mkp: CompoundInterval([0, 5], [3, 8], P, mkp()))
+        E(f"CompoundInterval/parent/{lab}-adjacent-blocks-minus", True, eb, lambda mkp=mkp: CompoundInterval([1, 2], [2, 4], M, mkp()))
+        E(f"CompoundInterval/parent/{lab}-empty-blocks-at-0", None, "nothing covered: fits", lambda mkp=mkp: CompoundInterval([0, 0], [0, 0], P, mkp()))
+        E(f"SingleInterval.reset_parent/new_parent/{lab}", True, eb, lambda mkp=mkp: SingleInterval(3, 9, P).reset_parent(make_parent_obj(mkp())))
+        E(f"CompoundInterval.reset_parent/new_parent/{lab}", True, eb, lambda mkp=mkp: CompoundInterval([0, 5], [3, 8], M).reset_parent(make_parent_obj(mkp())))
+        E(f"FeatureInterval/parent_or_seq_chunk_parent/{lab}", True, eb, lambda mkp=mkp: FeatureInterval([1], [3], P, parent_or_seq_chunk_parent=make_parent_obj(mkp())))
+        E(f"FeatureInterval/parent_or_seq_chunk_parent/{lab}-multi-block", True, eb,
+          lambda mkp=mkp: FeatureInterval([1, 5], [3, 8], M, parent_or_seq_chunk_parent=make_parent_obj(mkp())))
+        E(f"TranscriptInterval/parent_or_seq_chunk_parent/{lab}", True, eb, lambda mkp=mkp: tx(parent_or_seq_chunk_parent=make_parent_obj(mkp())))
+        E(f"CDSInterval/parent_or_seq_chunk_parent/{lab}", True, eb, lambda mkp=mkp: cds(parent_or_seq_chunk_parent=make_parent_obj(mkp())))
+        E(f"VariantInterval/parent_or_seq_chunk_parent/{lab}", True, eb, lambda mkp=mkp: var(parent_or_seq_chunk_parent=make_parent_obj(mkp())))
+        E(f"AnnotationCollection/parent_or_seq_chunk_parent/{lab}-with-bounds", True, eb,
+          lambda mkp=mkp: AnnotationCollection(start=0, end=5, parent_or_seq_chunk_parent=make_parent_obj(mkp())))
+
+    def make_parent_obj(x):
+        from inscripta.biocantor.parent import make_parent
+
+        return make_parent(x)
+
+    for lab, mkloc in (("single", lambda: SingleInterval(0, 6, P)), ("single-minus-offset", lambda: SingleInterval(3, 4, M)), ("compound", lambda: CompoundInterval([0, 5], [3, 8], P)),
+                       ("zero-length-beyond", lambda: SingleInterval(5, 5, P))):
+        E(f"Parent/location/{lab}-on-empty-sequence", True, eb, lambda mkloc=mkloc: Parent(sequence=empty_seq(), location=mkloc()))
+        E(f"Parent/location/{lab}-on-empty-sequence-with-id", True, eb, lambda mkloc=mkloc: Parent(id="chr1", sequence=empty_seq(id="chr1"), location=mkloc()))
+    E("Parent/location/zero-length-at-0-on-empty-sequence", None, "fits", lambda: Parent(sequence=empty_seq(), location=SingleInterval(0, 0, P)))
+    lp = "Parent.__init__: 'len(sequence) > len(parent_obj.sequence): raise LocationException(\"Parent ... is longer than parent of parent\")'"
+    E("Parent/parent/grandparent-with-empty-sequence", True, lp, lambda: Parent(sequence=seq40(), parent=Parent(id="top", sequence=empty_seq())))
+    E("Parent/parent/empty-sequence-as-grandparent", True, lp + " (make_parent registers Sequence)", lambda: Parent(sequence=seq40(), parent=empty_seq()))
+    E("Parent/sequence/empty-under-longer-grandparent", None, "0 <= 40: fits", lambda: Parent(sequence=empty_seq(), parent=Parent(id="top", sequence=seq40(id="top"))))
+    E("Parent/id/empty-string-vs-sequence-id", True, uv + " ('' is a value, only None is skipped)", lambda: Parent(id="", sequence=seq40()))
+    E("Parent/sequence_type/empty-string-vs-sequence-type", True, uv, lambda: Parent(sequence_type="", sequence=seq40()))
+    E("Parent/id/empty-string-vs-location-parent-id", True, uv, lambda: Parent(id="", location=SingleInterval(3, 9, P, parent="chr2")))
+    E("Parent/strand/mismatch-with-zero-length-location", True, "Parent.__init__: 'strand is not location.strand: raise InvalidStrandException'",
+      lambda: Parent(strand=P, location=SingleInterval(5, 5, M)))
+    sl = "Sequence.__init__: 'len(self.parent.location) != len(self): raise MismatchedParentException' (a zero-length location is a location)"
+    E("Sequence/parent/zero-length-location-for-nonempty-data", True, sl, lambda: Sequence("ACGT", Alphabet.NT_STRICT, parent=Parent(location=SingleInterval(5, 5, P))))
+    E("Sequence/parent/zero-length-location-as-parent-for-nonempty-data", True, sl + " (make_parent registers Location)",
+      lambda: Sequence("ACGT", Alphabet.NT_STRICT, parent=SingleInterval(5, 5, P)))
+    E("Sequence/data/empty-for-nonempty-parent-location", True, sl, lambda: empty_seq(parent=Parent(location=SingleInterval(0, 5, P))))
+    E("Sequence/data/empty-for-zero-length-parent-location", None, "0 == 0: fits", lambda: empty_seq(parent=Parent(location=SingleInterval(4, 4, P))))
+    E("Sequence/data/empty-wrong-alphabet-impossible", None, "the empty string conforms to every alphabet", lambda: Sequence("", Alphabet.AA))
+    # 0 / empty list / empty string where None means "absent"
+    E("AnnotationCollection/start/zero-without-end", True, "collections.py: 'end is None and start is not None: raise InvalidAnnotationError'", lambda: AnnotationCollection(start=0))
+    E("AnnotationCollection/end/zero-without-start", True, "collections.py: 'start is None and end is not None: raise InvalidAnnotationError'", lambda: AnnotationCollection(end=0))
+    E("AnnotationCollection/-/valid-zero-bounds", None, "", lambda: AnnotationCollection(start=0, end=0))
+    E("AnnotationCollection.query_by_position/start/zero-before-bounds", True, iq, lambda: coll(start=5, end=30).query_by_position(0, 10))
+    E("AnnotationCollection.query_by_position/start/zero-before-bounds-on-queried-collection", True, iq,
+      lambda: coll().query_by_position(5, 30, completely_within=False).query_by_position(0, 10))
+    E("AnnotationCollection.query_by_position/end/zero", True, iq, lambda: coll().query_by_position(0, 0))
+    E("AnnotationCollection.query_by_position/end/zero-with-start", True, iq, lambda: coll().query_by_position(3, 0))
+    E("TranscriptInterval/cds_starts/empty-list-without-ends", True, ic + " 'cds_starts is not None and cds_ends is None'", lambda: tx(cds_starts=[], cds_ends=None))
+    E("TranscriptInterval/cds_ends/empty-list-without-starts", True, ic + " 'cds_starts is None and cds_ends is not None'", lambda: tx(cds_starts=None, cds_ends=[]))
+    E("TranscriptInterval/cds_frames/empty-list", True, ic + " 'len(cds_frames) != len(cds_starts)'", lambda: tx(cds_frames=[]))
+    E("GeneInterval/transcripts/empty-tuple", True, "gene.py: 'if not transcripts: raise InvalidAnnotationError'", lambda: gene(()))
+    E("FeatureIntervalCollection/feature_intervals/empty-tuple", True, "feature.py: 'if not feature_intervals: raise InvalidAnnotationError'", lambda: fcoll(()))
+    E("VariantIntervalCollection/variant_intervals/empty-tuple", True, "variants.py: 'if not variant_intervals: raise InvalidAnnotationError'", lambda: vcoll(()))
+    E("VariantInterval/start,end/zero-zero", True, "variants.py: 'if start == end: raise EmptyLocationException'", lambda: var(0, 0))
+    E("VariantInterval/sequence/empty-deletion", None, "module docstring: unpadded deletion has sequence ''", lambda: var(5, 8, "", "deletion"))
+    for lab, q in (("empty-list", []), ("empty-string", ""), ("zero", 0), ("empty-tuple", ())):
+        E(f"FeatureInterval/qualifiers/falsy-{lab}", False, "'if qualifiers:' guards the isinstance check - an empty non-dict is treated as absent (not documented either way)",
+          lambda q=q: feat(qualifiers=q))
+    E("ParentModel.to_parent/sequence_name/empty-string-for-chunk", True, ii, lambda: ParentModel(seq="ACGT", sequence_name="", type="sequence_chunk", start=0, end=4).to_parent())
+    E("ParentModel.to_parent/-/valid-chunk-at-zero", None, "start=0 is a position, not 'absent'", lambda: ParentModel(seq="ACGT", sequence_name="c", type="sequence_chunk", start=0, end=4).to_parent())
+    E("ParentModel.to_parent/start,end/zero-zero-for-nonempty-chunk", True, "Sequence.__init__: MismatchedParentException (4 != 0)",
+      lambda: ParentModel(seq="ACGT", sequence_name="c", type="sequence_chunk", start=0, end=0).to_parent())
+    E("SingleInterval.scan_windows/start_pos/zero-on-empty-interval", True, sw + " ('not 0 <= start_pos < len(self)')", lambda: list(SingleInterval(3, 3, P).scan_windows(1, 1, 0)))
+
+    # ==========================================================================================================
+    # "same id, different content" parents: every operation that documents a parent check compares the parents with
+    # Parent.equals_except_location (id, sequence type, sequence, parent of parent) - never the ids alone - and a parent
+    # without id is still a parent
+    # ==========================================================================================================
+    def mismatches():
+        g2 = G40[::-1]
+
+        def named(seq, type=None, id="chr1", **kw):
+            return Parent(id=id, sequence_type=type, sequence=Sequence(seq, Alphabet.NT_STRICT, type=type) if seq else None, **kw)
+
+        return [("same-id-other-sequence", named(G40), named(g2)),
+                ("same-id-other-sequence-type", named(G40, "chromosome"), named(G40, "plasmid")),
+                ("same-id-typed-vs-untyped", named(None, "chromosome"), named(None)),
+                ("same-id-with-vs-without-sequence", named(G40), named(None)),
+                ("same-id-other-grandparent", named(None, parent=Parent(id="top1")), named(None, parent=Parent(id="top2"))),
+                ("no-id-other-sequence", named(G40, id=None), named(g2, id=None)),
+                ("unnamed-parent-vs-no-parent", named(G40, id=None), None),
+                ("no-parent-vs-unnamed-parent", None, named(G40, id=None))]
+
+    pe = "Parent.equals_except_location compares id, sequence_type, sequence and parent of parent; "
+    for lab, pa, pb in mismatches():
+        a_none = pa is None
+        E(f"CompoundInterval.from_single_intervals/intervals/{lab}", True, pe + fsi + " on 'len(interval_parents) > 1' (location-stripped parents)",
+          lambda pa=pa, pb=pb: CompoundInterval.from_single_intervals([SingleInterval(0, 3, P, pa), SingleInterval(5, 8, P, pb)]))
+        E(f"CompoundInterval.from_single_intervals/intervals/{lab}-minus-three-blocks", True, pe + fsi,
+          lambda pa=pa, pb=pb: CompoundInterval.from_single_intervals([SingleInterval(0, 3, M, pa), SingleInterval(5, 8, M, pa), SingleInterval(10, 12, M, pb)]))
+        for cls_name, mk in (("SingleInterval", lambda p: SingleInterval(3, 9, P, p)), ("CompoundInterval", lambda p: CompoundInterval([3, 12], [6, 15], P, p))):
+            oth = lambda p: SingleInterval(4, 14, P, p)  # noqa: E731
+            oth2 = lambda p: CompoundInterval([4, 13], [5, 20], P, p)  # noqa: E731
+            if not a_none:     # union / union_preserve_overlaps document the check only 'if self.parent'
+                E(f"{cls_name}.union/other/{lab}", True, pe + mp, lambda mk=mk, pa=pa, pb=pb: mk(pa).union(oth(pb)))
+                E(f"{cls_name}.union/other-compound/{lab}", True, pe + mp, lambda mk=mk, pa=pa, pb=pb: mk(pa).union(oth2(pb)))
+                E(f"{cls_name}.union_preserve_overlaps/other/{lab}", True, pe + mp, lambda mk=mk, pa=pa, pb=pb: mk(pa).union_preserve_overlaps(oth(pb)))
+            E(f"{cls_name}.distance_to/other/{lab}", True, pe + mp, lambda mk=mk, pa=pa, pb=pb: mk(pa).distance_to(oth(pb)))
+            E(f"{cls_name}.distance_to/other-compound/{lab}", True, pe + mp, lambda mk=mk, pa=pa, pb=pb: mk(pa).distance_to(oth2(pb)))
+            for op in ("has_overlap", "intersection", "minus", "contains"):
+                E(f"{cls_name}.{op}/other/{lab}-strict", True, "strict_parent_compare=True: " + pe + mp,
+                  lambda mk=mk, op=op, pa=pa, pb=pb: getattr(mk(pa), op)(oth(pb), strict_parent_compare=True))
+            E(f"{cls_name}.location_relative_to/other/{lab}", True, "location_relative_to: NullParentException when only the other has a parent, else " + mp,
+              lambda mk=mk, pa=pa, pb=pb: mk(pa).location_relative_to(oth(pb)))
+        if not a_none:
+            E(f"Sequence.append/other/{lab}", True, "append: 'if not self.parent.equals_except_location(other.parent): raise ValueError(\"Sequences must have same parent\")'",
+              lambda pa=pa, pb=pb: Sequence("ACGT", Alphabet.NT_STRICT, parent=pa.reset_location(SingleInterval(0, 4, P))).append(
+                  Sequence("ACGT", Alphabet.NT_STRICT, parent=pb.reset_location(SingleInterval(4, 8, P)) if pb is not None else None)))
+            if pb is not None:
+                E(f"Parent/parent/{lab}-vs-sequence-parent", True, "Parent.__init__ -> require_parents_equal_except_location(parent_obj, sequence.parent): " + pe,
+                  lambda pa=pa, pb=pb: Parent(sequence=Sequence("ACGT", Alphabet.NT_STRICT, parent=pa), parent=pb))
+    lo = "interval.py liftover_to_parent_or_seq_chunk_parent / liftover_location_to_seq_chunk_parent: 'if loc_chrom.sequence and par_chrom.sequence: require_parents_equal_except_location'"
+    other_assembly = lambda: seq_to_parent(G40[::-1], seq_id="chr1")  # noqa: E731  - same name, other sequence
+    E("TranscriptInterval.liftover_to_parent_or_seq_chunk_parent/parent/same-id-other-sequence", True, lo, lambda: tx().liftover_to_parent_or_seq_chunk_parent(other_assembly()))
+    E("FeatureInterval.liftover_to_parent_or_seq_chunk_parent/parent/same-id-other-sequence", True, lo, lambda: feat().liftover_to_parent_or_seq_chunk_parent(other_assembly()))
+    E("GeneInterval.liftover_to_parent_or_seq_chunk_parent/parent/same-id-other-sequence", True, lo, lambda: gene().liftover_to_parent_or_seq_chunk_parent(other_assembly()))
+    E("AnnotationCollection.liftover_to_parent_or_seq_chunk_parent/parent/same-id-other-sequence", True, lo, lambda: coll().liftover_to_parent_or_seq_chunk_parent(other_assembly()))
+    E("TranscriptInterval.liftover_to_parent_or_seq_chunk_parent/parent/same-id-other-sequence-from-chunk", True, lo + " (chunk-relative interval: the chromosome above the chunk carries no sequence -> ids / types are compared)",
+      lambda: tx(parent_or_seq_chunk_parent=chunk(0, 40)).liftover_to_parent_or_seq_chunk_parent(seq_chunk_to_parent(G40[2:30], "chrOther", 2, 30)))
+    E("TranscriptInterval.liftover_to_parent_or_seq_chunk_parent/parent/same-chromosome-without-sequence", None, "documented: sequence-less chromosomes are compared without sequence",
+      lambda: tx().liftover_to_parent_or_seq_chunk_parent(chrom_noseq()))
+    E("AbstractInterval.liftover_location_to_seq_chunk_parent/location/chunk-relative-on-other-chromosome", True, lo,
+      lambda: FeatureInterval.liftover_location_to_seq_chunk_parent(SingleInterval(2, 8, P, chunk(0, 40)), seq_chunk_to_parent(G40[2:30], "chrOther", 2, 30)))
+
+    # ==========================================================================================================
+    # io.models
+    # ==========================================================================================================
     E("ParentModel.to_parent/-/valid-chunk", None, "", lambda: ParentModel(seq="ACGT", sequence_name="chr1", type="sequence_chunk", start=3, end=7).to_parent())
     E("ParentModel.to_parent/-/valid-chromosome", None, "", lambda: ParentModel(seq="ACGT", sequence_name="chr1").to_parent())
     E("ParentModel.to_parent/sequence_name/missing-for-chunk", True, ii, lambda: ParentModel(seq="ACGT", type="sequence_chunk", start=0, end=4).to_parent())
